@@ -172,9 +172,11 @@ theorem file_eq_memory (env : Env) (d0 : Disk) (m : Meta) (cmds : List Cmd) (hgo
 theorem pttempo_choice :
     flags.ptTempoChoice false false = .simple ∧ flags.ptTempoChoice true false = .fileTemp ∧
     (∀ truthy, flags.ptTempoChoice truthy true = .fileNamed) ∧
-    (∀ ovw other, flags.ptTempoMode ovw other = flags.exportMode ovw) ∧
+    (∀ ovw (other : Nat → Bool), flags.ptTempoMode ovw other = flags.exportMode ovw) ∧
     flags.exportMode false = "write" ∧ flags.exportMode true = "overwrite" := by
-  decide
+  refine ⟨by decide, by decide, by decide, ?_, rfl, rfl⟩
+  intro ovw other
+  cases ovw <;> rfl
 
 /-! ### metadata -/
 
